@@ -37,10 +37,10 @@ CHECKS = {
             "flavours": [("asan", False, 60000, 1000000), ("plain", False, 100000, 2000000), ("asan", True, 0, 100000),
                          ("vg", False, 0, 400)]},
     "C10": {"level": "fault_enumeration",
-            "flavours": [("plain", False, 100000, 2000000), ("plain", True, 15000, 300000), ("asan", False, 0, 200000),
+            "flavours": [("plain", False, 100000, 2000000), ("plain", True, 15000, 100000), ("asan", False, 0, 200000),
                          ("selfchk", False, 0, 300000)]},
     "C14": {"level": "fault_enumeration",
-            "flavours": [("plain", False, 100000, 2000000), ("plain", True, 15000, 300000), ("asan", False, 0, 200000)]},
+            "flavours": [("plain", False, 100000, 2000000), ("plain", True, 15000, 100000), ("asan", False, 0, 200000)]},
     "C18": {"level": "exploration",
             "flavours": [("tsan", False, 40000, 800000), ("plain", False, 100000, 2000000), ("asan", False, 0, 300000)]},
 }
@@ -121,7 +121,7 @@ def parse_lines(lines):
 
 def run_chunk(binary, check, tier, seed, a, b, valgrind=False):
     """Executes runs a..b-1, restarting after a dead run. Returns dict."""
-    res = {"runs": [], "summaries": [], "deaths": []}
+    res = {"runs": [], "summaries": [], "deaths": [], "timeouts": []}
     cur = a
     while cur < b:
         rc, out, err = run_sim(binary, ["--check", check, "--tier", tier, "--seed", str(seed),
@@ -136,7 +136,13 @@ def run_chunk(binary, check, tier, seed, a, b, valgrind=False):
         if begun is None:
             res["deaths"].append({"i": cur, "how": "startup", "rc": rc, "stderr": err[-3000:]})
             break
-        d = {"i": begun, "rc": rc, "stderr": err[-6000:], "how": (dead or {}).get("how", "timeout" if rc == -999 else "exit")}
+        if rc == -999 and not dead:
+            # the chunk ran into the driver's wall-clock limit: a slow or hung run,
+            # not a crash - counted, replayed for C18 (progress), never a C09 death
+            res["timeouts"].append({"i": begun})
+            cur = begun + 1
+            continue
+        d = {"i": begun, "rc": rc, "stderr": err[-6000:], "how": (dead or {}).get("how", "exit")}
         if dead:
             d.update({k: dead[k] for k in ("task", "op", "lib", "kind") if k in dead})
         res["deaths"].append(d)
@@ -379,6 +385,7 @@ def do_check(check, tier, seed):
     per_flavour = {}
     all_viol = []     # (flavour key, run record, violation)
     deaths = []       # (flavour key, death record)
+    timeouts = []     # (flavour key, run index)
     hashes = {}       # (flavour key, run index) -> hash
     sigs, pstates = set(), set()
     samples = []
@@ -390,6 +397,8 @@ def do_check(check, tier, seed):
         binary = bins[key]
         vg = flavour == "vg"
         chunk = 20 if vg else (250 if flavour in ("asan", "tsan") else 1000)
+        if exact:
+            chunk = min(chunk, 200)
         chunks = [(a, min(a + chunk, nruns)) for a in range(0, nruns, chunk)]
         t0 = time.time()
         done_runs = 0
@@ -426,6 +435,8 @@ def do_check(check, tier, seed):
                         all_viol.append((key, run, v))
                 for d in r["deaths"]:
                     deaths.append((key, d))
+                for d in r["timeouts"]:
+                    timeouts.append((key, d["i"]))
         per_flavour[key] = {"runs": done_runs, "planned_runs": nruns, "wall_s": round(time.time() - t0, 2),
                             "runs_per_hour": int(done_runs / max(1e-6, time.time() - t0) * 3600)}
         merge_counts(agg, fl_counts)
@@ -616,6 +627,37 @@ def do_check(check, tier, seed):
     else:
         aborted_foreign = len(death_runs)
 
+    # runs that hit the wall-clock limit: for C18 a hang that the non-pre-emptive
+    # schedule of the same plan does not have is a progress violation
+    hang_inconclusive = 0
+    if check == "C18":
+        for key, i in timeouts[:3]:
+            pf = dump_plan(key, i)
+            if pf is None:
+                continue
+            c1, _, r1, d1, _ = replay_plan(bins[key], pf, ".gate-hang-%s-%d.json" % (key, i))
+            hung = d1 is not None and d1.get("rc") == -999
+            if not hung:
+                hang_inconclusive += 1
+                continue
+            c2 = copy.deepcopy(pf)
+            c2["plan"]["sched"] = {"policy": 0, "seed": 0, "period": 16, "pct_depth": 1, "est_steps": 1000}
+            c2["plan"]["compare_canonical"] = 0
+            cc, _, r2, d2, _ = replay_plan(bins[key], c2, ".gate-hang-%s-%d.json" % (key, i))
+            if d2 is not None and d2.get("rc") == -999:
+                hang_inconclusive += 1   # hangs sequentially as well: not a schedule matter
+                continue
+            pf.update({"property": "C18", "violation_class": "hang-under-schedule", "site": "scheduler",
+                       "detail": "run does not finish under the explored schedule (killed after the wall-clock limit) but does under the non-pre-emptive one"})
+            path = os.path.join(REPLAYS, "C18-hang-%s-%d.json" % (key, i))
+            os.makedirs(REPLAYS, exist_ok=True)
+            json.dump(pf, open(path, "w"), indent=1)
+            reported.append((("C18", "hang-under-schedule", "scheduler"), path, pf["detail"]))
+            exit_code = 1
+            break
+    else:
+        hang_inconclusive = len(timeouts)
+
     for target, k, i, key in known_hits:
         log("KNOWN-FINDING: property=%s %s at %s (%s) [seen in run %d, %s]" % (target[0], target[1], target[2], k["what"], i, key))
     for target, path, detail in reported:
@@ -716,6 +758,7 @@ def do_check(check, tier, seed):
             "runs_stopped_by_other_property": foreign_truncated,
             "aborted_runs_attributed_elsewhere": aborted_foreign,
             "dead_runs": len(death_runs),
+            "runs_hitting_wall_clock_limit": len(timeouts),
             "determinism_audit": audit,
             "known_findings_seen": [" ".join(t) for t, _, _, _ in known_hits],
             "components": {"real_code": ["every header under include/bspline (instantiated with sim::Num)"],
